@@ -1273,11 +1273,17 @@ class Exec(Engine):
                 st.assume(self.truth(self.ev(ast.parse(nw, mode="eval").body, cf), cf))
             for m in c.modifies:
                 self.havoc_target(m, cf)
-            if c.pure and c.result in ("V", "any", None):
+            if c.pure and c.result in ("V", "any", None, "str", "int", "bool", "real"):
                 # a pure function: its value is a function of its arguments
                 a = p.node.args
                 order = [x.arg for x in a.posonlyargs + a.args + a.kwonlyargs]
                 res = self.ext_value(p.key, [env[nm] for nm in order if nm in env], fr)
+                if c.result in ("str", "int", "bool", "real"):
+                    rv = res.t
+                    tagp = {"str": T.is_VStr, "int": T.is_VInt, "bool": T.is_VBool, "real": T.is_VReal}[c.result]
+                    st.assume(tagp(rv))
+                    res = {"str": lambda: mk_str(T.sval(rv)), "int": lambda: mk_int(T.ival(rv)),
+                           "bool": lambda: mk_bool(T.bval(rv)), "real": lambda: mk_real(T.rval(rv))}[c.result]()
             else:
                 res = self.fresh_result(c.result, short)
             for gname, gkind in c.ghost_out.items():
